@@ -1,7 +1,7 @@
 # Per-property configuration of bin/check: Lean modules holding the property theorems, level, notes.
 PROPS = {
     "C20": {
-        "lean": ["Knut.Properties.C20", "Knut.Properties.C20Periods", "Knut.Properties.C20Balance"],
+        "lean": ["Knut.Properties.C20", "Knut.Properties.C20Periods", "Knut.Properties.C20Balance", "Knut.FactsAgree.TransPerformance", "Knut.FactsAgree.TransPerformanceFlows", "Knut.FactsAgree.TransWeights"],
         "level": "proof",
         "claim": "PARTIAL: proof on the exact-arithmetic (Rat) model of lib/journal/performance, lib/reports/weights and the two portfolio commands + tolerance correspondence with the float64 "
                  "code. Lean theorems (all journals, windows, intervals, --last, filters, universes, mappings): C20_weights_share (each commodity is added with value / total value on a period end "
@@ -28,6 +28,7 @@ PROPS = {
                 "(performance.LoadUniverse in-process over readers that deliver pieces or fail part-way: loaded = the whole file, or an error). Per-period monitors: zero_period_when_calm (driver op `calm` = Performance.calmPeriods), ratio_without_flows. "
                 "class = (stream, outcomes, flag signature, size bucket).",
         "assumptions": ["exact rational arithmetic in place of float64 (outputs compared after rounding to the printed digits with 1-2 units tolerance)",
+                        "translated lib/journal/performance (FactsAgree/TransPerformance*.lean): float64 is read as an exact rational (GoSem/Float.lean: + - * exact, comparisons of rationals, decimal.Float64 = the value); x/0 (Go: +-Inf/NaN, no panic) is the distinct outcome F64.undefined at which the translated run stops, the model's `none`; fmt.Printf(\"%0.1f\") is recorded with its exact operand, not formatted; no commodity is tagged as a currency (pickTargets_agrees); translated lib/reports/weights (FactsAgree/TransWeights.lean): the same reading of float64, Value.Weights as an Option (nil map), the tree of lib/common/multimap with its pinned meaning; Query.Execute and the Renderer are not translated",
                         "C20_zero_period_when_only_external_flows: no --commodity, V0+inflow != 0 on the days of the period (both are points where the clause fails on the code: known findings); C20_ratio_period_without_flows: non-zero start value on every day of the period",
                         "C20_command_values_are_valued_balance: both commands succeed; same -v/--account/--commodity, no -m/--remap on the balance, no --from of the balance after the first transaction; D a column of the balance report (pipeline-level form: same list of days, days up to D inside the balance window or before the first booking)"],
         "trusted": ["known findings: returns-commodity-filter-counts-filtered-flows, returns-meaningless-when-start-value-plus-inflow-vanishes, returns-meaningless-when-start-value-is-rounding-residue"],
@@ -510,7 +511,9 @@ PROPS = {
                 "CSV written quoted-all or minimally, bare quotes for LazyQuotes readers, blanks after separators, CRLF, BOM), malformed (a well-formed statement with one mutation: empty, truncated, "
                 "line removed / doubled / blanked / swapped, field added / dropped, stray quote, damaged number / date / currency, invalid account flag, random byte), golden (the repository's example "
                 "inputs), flags (the importers with several account flags under every set partition of {Expenses:TBD, flag accounts}: two, three or all flags naming one account, flags naming Expenses:TBD, "
-                "never the import account; half of the stmt / malformed statements of these importers also draw such a collision), lib-dec, lib-date, lib-str. "
+                "never the import account; half of the stmt / malformed statements of these importers also draw such a collision), big (statements of hundreds to tens of thousands of rows, output 100 KiB to several MiB, "
+                "imported once with an eager reader - all monitors of stmt - and then with stdout read by paced consumers: late start, stall at an offset, slow / tiny / bursty reads, pipes of 4 KiB to 1 MiB, "
+                "regular file; every consumer's bytes must equal the eager reader's and the model's and satisfy output_parses, one_transaction_per_row, faithful_to_statement), lib-dec, lib-date, lib-str. "
                 "class = (stream, importer, outcome, row bucket, free-text features, amount / row-kind features, flag collisions).",
         "assumptions": ["statements are valid text in their encoding (UTF-8, resp. ISO 8859-1 for ch.supercard)",
                         "the accounts given by flags differ from the import account (otherwise a posting pair cancels itself)",
